@@ -149,6 +149,11 @@ def rule_wrap(ctx):
         cs = call_sites(f, 'myth_once_body')
         ok = len(cs) == 1 and same_value(f, cs[0].args[0], 'a0') and same_value(f, cs[0].args[1], 'a1')
         ctx.ob('C14.4', '%s forwards to myth_once_body' % name, ok, 'arguments are forwarded position by position', loc=f.loc)
+        others = [c for c in f.calls() if (c.callee or '').startswith('real_')]
+        rch = f.reachable_from(f.entry_inst(), blocked=cs + others, include_start=True)
+        ctx.ob('C14.4', '%s: every call reaches the once protocol' % name, bool(cs) and not [r for r in f.exits() if r in rch],
+               'the wrapper does not decide "already initialised" by itself: a control that reads in-progress is not complete, and only '
+               'the body waits for completion', loc=f.loc)
         for val, anchor in ret_cases(f):
             if cs and isinstance(val, str) and cs[0].id in f.sources(val):
                 ctx.ob('C14.4', '%s returns the body\'s result' % name, True, 'result forwarded', loc=anchor.loc)
@@ -160,7 +165,7 @@ def rule_wrap(ctx):
     from . import c16
     with ctx.shared({'C16.4': 'C14.4'}, keep=lambda k: 'pthread_once' in k):
         c16.rule4_wraplist(ctx)
-    ctx.floor('C14.4', 5)
+    ctx.floor('C14.4', 7)
 
 
 def run(ctx):
